@@ -136,8 +136,9 @@ class Ctx:
         return out
 
 
-DIM_ALPHA = ["2", "3", "a", "b", "d", "c=2", "c=a+b", "a+1", "a*b", "b/2", "...", "*g", "*h", "min(a,b)", "n=3", "isqrt(a)", "a^2", "c", "max(a,d)-1", "e=a*b+d", "0", "e"]
-DIM_WEIGHTS = [3, 2, 6, 5, 2, 2, 3, 2, 2, 1, 2, 3, 1, 2, 1, 1, 1, 2, 1, 1, 1, 1]
+DIM_ALPHA = ["2", "3", "a", "b", "d", "c=2", "c=a+b", "a+1", "a*b", "b/2", "...", "*g", "*h", "min(a,b)", "n=3", "isqrt(a)", "a^2", "c", "max(a,d)-1", "e=a*b+d", "0", "e",
+             "a-b+d", "a*b/2"]  # (chains of equal precedence: the grouping matters)
+DIM_WEIGHTS = [3, 2, 6, 5, 2, 2, 3, 2, 2, 1, 2, 3, 1, 2, 1, 1, 1, 2, 1, 1, 1, 1, 1, 1]
 SIZES = [0, 1, 2, 3, 4, 5]
 
 
@@ -281,10 +282,17 @@ def gen_ctx(rng, max_tensors=4, tuple_p=0.2, ret_p=0.3, provider_p=0.3, libs=(0,
     # perturbations
     for _ in range(rng.choice(perturb)):
         s, cn = rng.choice(all_slots)
-        kind = rng.choice(["axis", "axis", "axis", "axis", "axis", "ins", "drop", "dtype", "dtype", "none", "other", "prov", "prov"])
+        kind = rng.choice(["axis", "axis", "axis", "axis", "axis", "ins", "drop", "dtype", "dtype", "none", "other", "prov", "prov", "dup"])
         if s.value[0] != "T":
             continue
         code, shape = s.value[1], list(s.value[2])
+        if kind == "dup":
+            # the very same array object at two positions (impl.make_tensor hands out one object per dtype and shape)
+            others = [o for o, _ in all_slots if o is not s and o.value[0] == "T"]
+            if others:
+                s.value = rng.choice(others).value
+                ctx.tags.append("p-dup")
+            continue
         if kind == "axis" and shape:
             i = rng.randrange(len(shape))
             shape[i] = max(0, shape[i] + rng.choice([-1, 1, 1, 2]))
